@@ -973,19 +973,25 @@ class SP(Robot):
         #Slightly different if the platform is supposed to be "reversed"
 
         #Find top pose that produces the desired leg lengths.
-        fk = lambda x : (self._IKHelper(tm(x), plate_pos)[0] - L).reshape((6))
+        #Solve for the top pose relative to the stationary plate, so that the
+        #search does not depend on where the platform stands in space.
+        fk = lambda x : (self._IKHelper(plate_pos @ tm(x), plate_pos)[0] - L).reshape((6))
 
         #solres = sci.optimize.fmin(fkprime, self.getTopT().TAA, disp=True)
-        init = self.getTopT().TAA
+        init_local = fsr.globalToLocal(plate_pos, self.getTopT())
+        init = init_local.TAA
         found_sol = True
         solres = sci.optimize.fsolve(fk, init)
         sol = tm(solres)
         sol.angleMod()
         sol.TMtoTAA()
+        sol = plate_pos @ sol
         self.IK(top_plate_pos = sol, bottom_plate_pos = plate_pos, protect = True)
         nLens = self.getLens()
         for j in range(6):
             if abs(abs(L[j]) - abs(nLens[j])) > 0.00001 or not self.validate(True):
+                #Start the Newton solver where this one started, not at its last trial point
+                self._current_plate_transform_local = init_local
                 return self._FKRaphson(L, plate_pos, protect)
         #If not "Protected" from recursion, call IK.
         if not protect:
